@@ -29,6 +29,13 @@ type Case struct {
 	TamperAt    int      `json:"tamper_at,omitempty"`
 	Name        string   `json:"name"`
 	EmptyPass   bool     `json:"empty_passphrase,omitempty"` // the request carries no passphrase: instances use their generation passphrase
+	// Prior, if set, is an earlier generation attempt under the same name on the same cluster:
+	// "complete" runs to its end; "lost-commit" loses the PriorLost-th commit message (so the
+	// attempt fails with the account stored on some participants only).  Afterwards every
+	// instance's sessions are aged past the timeout, and the generation under test follows.
+	Prior          string `json:"prior,omitempty"`
+	PriorLost      int    `json:"prior_lost,omitempty"`
+	PriorInitiator int    `json:"prior_initiator,omitempty"`
 }
 
 var idClasses = map[string][]uint64{
@@ -71,6 +78,11 @@ func genCase(t *rapid.T) (*Case, string) {
 	if rapid.Bool().Draw(t, "steer_commits") {
 		c.CommitOrder = rapid.Permutation([]int{0, 1, 2, 3, 4, 5, 6}).Draw(t, "commit_order")
 	}
+	if rapid.IntRange(0, 4).Draw(t, "prior") == 0 {
+		c.Prior = rapid.SampledFrom([]string{"lost-commit", "lost-commit", "complete"}).Draw(t, "prior_kind")
+		c.PriorLost = rapid.IntRange(0, int(maxu32(c.N, 1))-1).Draw(t, "prior_lost")
+		c.PriorInitiator = rapid.IntRange(0, nInst-1).Draw(t, "prior_initiator")
+	}
 	if rapid.IntRange(0, 9).Draw(t, "tamper") < 3 {
 		c.Tamper = rapid.SampledFrom([]string{"pubkey-replace", "pubkey-empty", "sig-replace", "sig-replace", "sig-empty"}).Draw(t, "tamper_kind")
 		c.TamperAt = rapid.IntRange(0, int(maxu32(c.N, 1))-1).Draw(t, "tamper_at")
@@ -80,12 +92,14 @@ func genCase(t *rapid.T) (*Case, string) {
 }
 
 type outcome struct {
-	message   string
-	success   bool
-	tampered  bool
-	refusedOB bool
-	initIn    bool
-	subsets   int
+	priorSuccess bool
+	priorHolders int
+	message      string
+	success      bool
+	tampered     bool
+	refusedOB    bool
+	initIn       bool
+	subsets      int
 }
 
 func run(c *Case) (*outcome, *vkit.Violation, error) {
@@ -132,6 +146,39 @@ func run(c *Case) (*outcome, *vkit.Violation, error) {
 	pass := []byte(vkit.DefaultPassphrase)
 	if c.EmptyPass {
 		pass = nil
+	}
+	if c.Prior != "" {
+		commits := 0
+		cl.Net.Before = func(m *vkit.Msg) error {
+			if m.Kind == "commit" {
+				if c.Prior == "lost-commit" && commits == c.PriorLost {
+					m.Dropped = true
+				}
+				commits++
+			}
+
+			return nil
+		}
+		savedAfter, savedOrder := cl.Net.After, cl.Net.CommitOrder
+		cl.Net.After, cl.Net.CommitOrder = nil, nil
+		presp, perr := cl.Nodes[c.PriorInitiator%len(cl.Nodes)].GenerateWithPassphrase(client, account, c.N, c.T, pass)
+		cl.Net.Before, cl.Net.After, cl.Net.CommitOrder = nil, savedAfter, savedOrder
+		o.priorSuccess = perr == nil && presp != nil && presp.GetState() == pb.ResponseState_SUCCEEDED
+		for _, n := range cl.Nodes {
+			if s, _ := n.HasAccount(c.Name); s {
+				o.priorHolders++
+			}
+			n.Process.VerifAgeGenerations(2 * time.Hour)
+		}
+		if len(cl.Net.Panics) > 0 {
+			return o, vkit.Violf("instance-panicked", "prior generation (n=%d,t=%d) crashed an instance: %v", c.N, c.T, cl.Net.Panics), nil
+		}
+	}
+	heldBefore := map[uint64]bool{}
+	for _, n := range cl.Nodes {
+		if s, f := n.HasAccount(c.Name); s || f {
+			heldBefore[n.ID] = true
+		}
 	}
 	resp, err := init.GenerateWithPassphrase(client, account, c.N, c.T, pass)
 	if len(cl.Net.Panics) > 0 {
@@ -295,9 +342,9 @@ func run(c *Case) (*outcome, *vkit.Violation, error) {
 			}
 		}
 	}
-	// bystanders hold nothing
+	// this generation gave bystanders nothing (what an earlier attempt left behind is not its doing)
 	for _, n := range cl.Nodes {
-		if seen[n.ID] {
+		if seen[n.ID] || heldBefore[n.ID] {
 			continue
 		}
 		if s, f := n.HasAccount(c.Name); s || f {
@@ -344,6 +391,15 @@ func TestC12(t *testing.T) {
 		}
 		vkit.S.Eval()
 		vkit.S.Class("ids-" + class)
+		if c.Prior != "" {
+			vkit.S.Class("prior-attempt-under-the-same-name-" + c.Prior)
+			if !o.priorSuccess && o.priorHolders > 0 {
+				vkit.S.Class("prior-attempt-failed-leaving-the-account-on-some-instances")
+			}
+			if o.success {
+				vkit.S.Class("success-after-a-prior-attempt-under-the-same-name")
+			}
+		}
 		if o.success {
 			vkit.S.Class(fmt.Sprintf("success-n%d-t%d", c.N, c.T))
 			vkit.S.Class("successful-generation")
